@@ -154,7 +154,7 @@ func payload(t *target, p *pair, nfill, pos1, pos2 int) string {
 		case t.numericFillers:
 			return fmt.Sprintf(`"%d"`, 100+i)
 		case t.textFillers:
-			return fmt.Sprintf(`"%d/9"`, 10+i)
+			return fmt.Sprintf(`"%d/%d"`, 10+i%100, 9+i/100) // both components stay inside int8
 		}
 		return fmt.Sprintf(`"f%d"`, i)
 	}
